@@ -172,7 +172,12 @@ def run(ck):
         elif verdict.startswith("build-panic"):
             agree = cls in ("panic", "err")
         elif verdict.startswith("runtime-todo"):
-            agree = cls in ("ok", "panic")     # the todo!() panic is swallowed (C15): downstream operators see an empty input
+            # the todo!() panics inside the operator task; since fix 4225762 the statement fails with
+            # `operator panicked: not yet implemented …` (before, the panic was swallowed: Ok, no rows)
+            # A build-time panic elsewhere in the same plan comes first (`panic`); under a LIMIT the
+            # consumer may stop before the failing task's error arrives (LIMIT 0 never polls it).
+            agree = (cls == "err" and "operator panicked" in outcome.get("msg", "")) or cls == "panic" \
+                or (cls == "ok" and "(limit " in plan)
         if not agree:
             stats["model_vs_impl_disagree"] += 1
             ck.report("corr:builder:" + verdict.split(":")[0] + "/" + cls, "plan checker says `%s`, the real executor's outcome for the %s plan is %s %s" % (
@@ -214,7 +219,7 @@ def run(ck):
                 if nb != no and nb > 0:
                     ck.report("plan:root-schema-changed", "optimization changed the number of output columns of `%s` from %d to %d" % (c["sql"], nb, no), replay=replay)
                 continue
-            if vo.startswith("runtime-todo") or (on["class"] == "ok" and ("(join right_outer" in on["optimized"] or "(join full_outer" in on["optimized"])):
+            if vo.startswith("runtime-todo"):
                 ck.report("plan:nl-outer-join-left-in-optimized-plan", "the optimized plan of `%s` keeps a nested-loop right/full outer join (executor: todo!())" % c["sql"], replay=replay)
                 continue
             sub = [k for k in ("apply", "in", "exists", "max1row") if ("(%s " % k) in (on.get("optimized") or "")]
